@@ -246,6 +246,41 @@ func runStress(dir string, seed uint64, tier string) {
 			}
 		}
 		nworkers := 8
+		// first a burst on two hot channels: all workers report blocks of the same transfer at once, every
+		// report a new position (the accounting caches and the per-channel state machine under contention)
+		if pushID, err := r.mgr.OpenPushDataChannel(ctx, peerOf(2), v, cidOf(1), nodeOf(2)); err == nil {
+			if pullID, err := r.mgr.OpenPullDataChannel(ctx, peerOf(3), v, cidOf(1), nodeOf(2)); err == nil {
+				addChan(pushID)
+				addChan(pullID)
+				for _, id := range []datatransfer.ChannelID{pushID, pullID} {
+					other := id.Responder
+					m := r.realMsg(respOf(mtNew, r.tids.tok(uint64(id.ID)), true, false))
+					r.receiver.ReceiveResponse(ctx, other, m.(datatransfer.Response))
+					_ = r.handler.OnChannelOpened(id)
+				}
+				var next int64
+				var hot sync.WaitGroup
+				for w := 0; w < nworkers; w++ {
+					hot.Add(1)
+					go func(w int) {
+						defer hot.Done()
+						link := cidlink.Link{Cid: cidOf(1)}
+						for i := 0; i < 40; i++ {
+							idx := atomic.AddInt64(&next, 1)
+							switch (w + i) % 3 {
+							case 0:
+								guard("OnDataQueued(hot)", func() { _, _ = r.handler.OnDataQueued(pushID, link, 10, idx, true) })
+							case 1:
+								guard("OnDataSent(hot)", func() { _ = r.handler.OnDataSent(pushID, link, 10, idx, true) })
+							default:
+								guard("OnDataReceived(hot)", func() { _ = r.handler.OnDataReceived(pullID, link, 10, idx, true) })
+							}
+						}
+					}(w)
+				}
+				hot.Wait()
+			}
+		}
 		for w := 0; w < nworkers; w++ {
 			wg.Add(1)
 			go worker(w)
